@@ -185,6 +185,59 @@ def Site.tpi (s : Site) : Bool := timePlusInv s.tmask s.expr
 def Site.evalF (s : Site) (fl : List Rat) (il : List Int) : Rat :=
   OQuPyVerif.TimeShift.evalF (envOf 0 fl) (envOf 0 il) s.expr
 
+/-! ### evaluations of a user callable at a FIXED ABSOLUTE time (constructor probes) -/
+
+/-- what survives of the value a probe returned -/
+inductive Kept where
+  /-- the value is dropped -/
+  | discard
+  /-- only passed to a validator whose result is dropped (raise-or-not) -/
+  | validate
+  /-- only `.shape` (the Hilbert space dimension) is read -/
+  | shape
+  /-- the numerical type is read (`.dtype`, `otypes=`) -/
+  | dtype
+  /-- the value itself (or an object built from it) is stored / returned -/
+  | value
+  /-- a use the translator does not understand -/
+  | unknown
+  deriving Repr, DecidableEq
+
+/-- one place where a user callable is evaluated at a time that does not move with the origin -/
+structure Probe where
+  name : String
+  file : String
+  line : Nat
+  /-- source text of the call -/
+  src : String
+  /-- the fixed time (source text) -/
+  time : String
+  kept : List Kept
+  deriving Repr
+
+/-- THE obligation of a probe: nothing but a validation or a shape check survives. -/
+def Probe.ok (p : Probe) : Bool :=
+  p.kept.all (fun k => k == .discard || k == .validate || k == .shape)
+
+/-- what an object remembers of the probed value `v` (for the shift theorem):
+    `valid` = does the validator accept, `shp` = the shape, `dty` = the numerical type -/
+inductive Info (α ι δ : Type) where
+  | nothing
+  | accepted (b : Bool)
+  | shapeIs (s : ι)
+  | dtypeIs (d : δ)
+  | valueIs (v : α)
+  | opaque (v : α)
+
+def retainedInfo {α ι δ : Type} (valid : α → Bool) (shp : α → ι) (dty : α → δ) (v : α) :
+    Kept → Info α ι δ
+  | .discard => .nothing
+  | .validate => .accepted (valid v)
+  | .shape => .shapeIs (shp v)
+  | .dtype => .dtypeIs (dty v)
+  | .value => .valueIs v
+  | .unknown => .opaque v
+
 /-! ### an abstract step machine whose only access to time is `q k` -/
 
 /-- State after `n` steps.  At step `k` the machine hands the times `q k` to the user's
